@@ -52,7 +52,7 @@ m = {
     }],
     "checks": checks,
     "not_applicable": na,
-    "notes": "quick: Tie + theorem audit + ~160k differential cases per parser property (8 workers); thorough: 4M cases, 16 workers, leanchecker. VERIF_SEED selects the PRNG seed.",
+    "notes": "quick: regenerated facts + Tie obligations + theorem build and axiom audit + ~160k differential cases per parser property / 48k controlled runs per DAG property (8 workers); thorough: 4M cases / 1.2M runs, 16 workers, leanchecker, race-detector leg (C13, C15), statement coverage of the library under the run (reported in the evidence). VERIF_SEED selects the PRNG seed. The deciding method of every check is the Lean proof (level proof); the differential runs tie the model to /repo and search for the failing input.",
 }
 json.dump(m, open(os.path.join(VERIF, "MANIFEST.json"), "w"), indent=1, ensure_ascii=False)
 print("checks:", len(checks), "not_applicable:", len(na))
